@@ -1020,6 +1020,46 @@ def _loop_of(brk, loop):
     return True
 
 
+def _eliminate_attr_aliases(fn):
+    """x = self.attr   (x bound exactly once, self.attr never rebound in the function)  ->  uses of x replaced by self.attr.
+    The alias denotes the same object throughout, so every read and every method call through it is one on the attribute."""
+    n = 0
+    binds = {}
+    for node in ast.walk(fn):
+        if isinstance(node, ast.Name) and isinstance(node.ctx, (ast.Store, ast.Del)):
+            binds[node.id] = binds.get(node.id, 0) + 1
+        elif isinstance(node, ast.arg):
+            binds[node.arg] = binds.get(node.arg, 0) + 1
+    rebound_attrs = {t.attr for node in ast.walk(fn) if isinstance(node, (ast.Assign, ast.AugAssign, ast.AnnAssign, ast.Delete))
+                     for t in ast.walk(node) if isinstance(t, ast.Attribute) and isinstance(t.ctx, (ast.Store, ast.Del))
+                     and isinstance(t.value, ast.Name) and t.value.id == "self"}
+    for lst in _stmt_lists(fn):
+        for st in list(lst):
+            if isinstance(st, ast.Assign) and len(st.targets) == 1 and isinstance(st.targets[0], ast.Name) \
+                    and isinstance(st.value, ast.Attribute) and isinstance(st.value.value, ast.Name) and st.value.value.id == "self" \
+                    and binds.get(st.targets[0].id) == 1 and st.value.attr not in rebound_attrs:
+                name = st.targets[0].id
+                # nested functions / lambdas capturing the alias keep it (late binding is the same object, but stay conservative)
+                captured = any(isinstance(x, ast.Name) and x.id == name for f2 in ast.walk(fn)
+                               if isinstance(f2, (ast.Lambda, ast.FunctionDef, ast.AsyncFunctionDef)) and f2 is not fn for x in ast.walk(f2))
+                if captured:
+                    continue
+                repl = st.value
+                for x in ast.walk(fn):
+                    for field, val in ast.iter_fields(x):
+                        if isinstance(val, ast.Name) and val.id == name and isinstance(val.ctx, ast.Load):
+                            setattr(x, field, copy.deepcopy(repl))
+                        elif isinstance(val, list):
+                            for i, v in enumerate(val):
+                                if isinstance(v, ast.Name) and v.id == name and isinstance(v.ctx, ast.Load):
+                                    val[i] = copy.deepcopy(repl)
+                lst.remove(st)
+                n += 1
+    if n:
+        ast.fix_missing_locations(fn)
+    return n
+
+
 def normalize_idioms(asts, ref):
     from .canon import sig_of
     done = []
@@ -1036,7 +1076,7 @@ def normalize_idioms(asts, ref):
             r = runits.get("|".join(k))
             if r is not None and r[0] == sig_of(fn).shape:
                 continue
-            n = 0
+            n = _eliminate_attr_aliases(fn)
             for _ in range(3):
                 _relink(mod, rel)
                 m = sum(_norm_block(lst, fn) for lst in _stmt_lists(fn))
